@@ -240,8 +240,8 @@ def configs(tier, seed):
     # --- a few real-BO states (tiny optimiser settings); crash points = prefixes of spine histories only
     add(fam="fifo", searcher="bayesopt", nir=2, W=2, T=5, R=1, p2e=1, ms=0, spines=2 if q else 3, h=2, bo=True,
         perms={"1": (2, 0, 3, 1, 4)})
-    add(fam="hbgp", searcher="bayesopt", nir=2, type="promotion", W=2, T=4, R=2, p2e=1, ms=0, spines=1 if q else 2,
-        h=2 if not q else 1, bo=True, perms={"1": (1, 0, 3, 2)})
+    add(fam="hbgp", searcher="bayesopt", nir=2, type="promotion", W=2, T=4, R=2, p2e=1, ms=0, spines=2,
+        h=2, bo=True, perms={"1": (1, 0, 3, 2)})
     if not q:
         add(fam="hbgp", searcher="bayesopt", nir=2, type="stopping", W=2, T=4, R=2, p2e=0, ms=0, spines=2, h=2, bo=True)
     return out
